@@ -391,12 +391,12 @@ def _self_check(res: Result, doc: dict, spec: str, family: str) -> None:
     """Second opinion on the schema verdicts: the constructive labels of the body alphabet must agree with the evaluator."""
     a, _ = schema_a(family, spec)
     for label, raw in bodies(family):
-        if label not in ("valid_A", "invalid_A", "valid_B_only"):
+        if label not in ("valid_A", "invalid_A", "valid_B_only", "null"):
             continue
         value = json.loads(raw)
         got_a = verdict(doc_with_components(doc, spec, family), a, value, spec=spec, direction="response")
         got_b = verdict(None, B_SCHEMA, value, spec=spec, direction="response")
-        want_a = label == "valid_A"
+        want_a = label == "valid_A" or (label == "null" and family == "nullable")
         want_b = label == "valid_B_only"
         if got_a is not want_a or got_b is not want_b:
             res.oracle_errors.append({"error": "body label disagrees with the evaluator", "family": family, "label": label,
@@ -480,7 +480,7 @@ def judge(res: Result, item: dict, doc: dict, want: dict, got: dict, crashes: di
 
     spec = item["spec"]
     base = {"spec": spec, "selected_by": facts.get("selected_by"), "key_form": facts.get("key_form")}
-    detail_base = {"document": shown_doc, "response": desc, "oracle": {a: list(want[a]) for a in oracle.ASPECTS},
+    detail_base = {"document": shown_doc, "response": desc, "response_classes": classes_of_input, "oracle": {a: list(want[a]) for a in oracle.ASPECTS},
                    "oracle_facts": facts, "observed": got, "crashes": crashes, "validate_response_all_four": group}
     for name in classes:
         res.count("observed_" + name)
@@ -549,17 +549,13 @@ def _aspect_facts(aspect: str, item: dict, facts: dict, classes_of_input: dict, 
         out["header_via_ref"] = bool(facts.get("header_via_ref"))
         out["why"] = why
     elif aspect == "body":
-        out["body_class"] = classes_of_input["body_class"]
+        out["content_type_class"] = classes_of_input["content_type_class"]
         out["media_type_position"] = facts.get("media_type_position")
         if "first_media_type_verdict" in facts:
             out["first_media_type_verdict"] = facts["first_media_type_verdict"]
         out["schema_family"] = item["schema"] if item["fam"] == "R" else "required_int"
         out["why"] = why
     return out
-
-
-def _show_responses(doc: dict) -> Any:
-    return _json_safe(doc["paths"]["/t"]["get"]["responses"])
 
 
 def _json_safe(node: Any) -> Any:
